@@ -157,7 +157,7 @@ PROPS = {
                  spec=[_door_vs_spec("d%d" % i) for i in range(1, 9)], laws=["law_grammar"]),
    "deser": dict(fields=[_decision("own"), _decision("bor")], laws=["law_refuse"]),
    "tok_new": dict(fields=[], laws=["law_valid"]),
-   "from_encoded": dict(fields=[_okerr("r")], laws=["law_exact", "law_verbatim"]),
+   "from_encoded": dict(fields=[_okerr("r")], laws=["law_exact", "law_verbatim", "law_align"]),
    "tok_int": dict(fields=[], laws=[("py_enc_valid", _law_enc_valid)]),
    "from_tokens": dict(fields=[], laws=["law_valid"]),
    "ptr_view": dict(fields=[], laws=["law_valid", "law_rt"]),
@@ -185,7 +185,7 @@ PROPS = {
    # offsets inside it are is C14's business
    "parse": dict(fields=[_decision("d%d" % i) for i in range(1, 9)],
                  spec=[_door_vs_spec("d%d" % i) for i in range(1, 9)],
-                 laws=["law_grammar", "law_doors", "law_same_ptr"]),
+                 laws=["law_grammar", "law_doors", "law_same_ptr", "law_align"]),
    "deser": dict(fields=["own", "bor"], laws=["law_refuse"]),
   },
   rule="all strings over {/,~,0,1,a,é} up to length 6 (quick) / 7 (thorough) + seeded random valid/corrupted pointers through all eight doors; non-trivial: contains '~', '/' or a multi-byte char",
@@ -196,9 +196,9 @@ PROPS = {
  "C03": dict(
   ops={
    "tok_new": dict(fields=["enc", "dec"], spec=[("enc", "spec_enc", ident), ("dec", "spec_dec", ident)],
-                   laws=["law_enc", "law_dec", "law_valid", "law_from"]),
+                   laws=["law_enc", "law_dec", "law_valid", "law_from", "law_align"]),
    "from_encoded": dict(fields=[("r", _fe_r)], spec=[("r", "spec_valid", _ok_flag), ("r", "spec_dec", _fe_dec)],
-                        laws=["law_exact", "law_verbatim", "law_inverse", "law_truth"]),
+                        laws=["law_exact", "law_verbatim", "law_inverse", "law_truth", "law_align"]),
   },
   rule="all strings over {/,~,0,1,a,é} up to length 6/7 for both ops + seeded random (tilde-dense, 1k–8k long); non-trivial: contains '~', '/' or a multi-byte char",
   exhaustive="every string over {/,~,0,1,a,é} up to length 6 (quick) / 7 (thorough), for Token::new and Token::from_encoded",
@@ -270,7 +270,7 @@ PROPS = {
   partial="the model is parametric in the backend, so JSON = TOML is true of the model by construction; the agreement of the separately written Rust copies is decided by the differential run",
  ),
  "C10": dict(
-  ops={"tree_hist": dict(fields=["steps"], spec=[("steps", "spec_steps", ident)], laws=["law_nopanic", "law_nodes"])},
+  ops={"tree_hist": dict(fields=["steps"], spec=[("steps", "spec_steps", ident)], laws=["law_nopanic", "law_nodes", "law_wf"])},
   rule="all histories of length ≤3 over an 8-op pool from 3 start documents (json and toml) + seeded random histories (1–30 / 1–200 steps) generated against the live document; non-trivial: ≥3 steps",
   exhaustive="all histories of length ≤ 3 over 8 operations from 3 start documents, both backends",
   theorems="Jp.C10.step_refines, history_refines, no_step_panics, nodes_addressable_after, wf_preserved",
@@ -308,7 +308,7 @@ PROPS = {
  ),
  "C14": dict(
   ops={"parse": dict(fields=["d1", "d2", "co", "src", ("label", _label14), "rsubj"], spec=[("d1", "spec_d", ident)],
-                     laws=["law_truth", "law_report", "law_fmt"])},
+                     laws=["law_truth", "law_report", "law_fmt", "law_align"])},
   rule="all strings over {/,~,0,1,a,é} up to length 6/7 + seeded random rejected strings (bad '~' in first/middle/last token, at the end, before '/', before multi-byte, after valid escapes); non-trivial: contains '~', '/' or multi-byte",
   exhaustive="every string over {/,~,0,1,a,é} up to length 6 (quick) / 7 (thorough)",
   theorems="Jp.C14.no_leading_slash_iff, invalid_encoding_offsets, report_keeps_input, label_inside, label_starts_at_tilde (+ C02.parse_eq_spec)",
